@@ -670,6 +670,43 @@ pub open spec fn lt_cleared(s: Seq<StunAttribute>) -> Seq<StunAttribute> {
 #[verifier::rlimit(60)]
 //@end
 
+// ---- what the long-term client reads out of an error response (admitted attributes only)
+pub open spec fn from_msg(attrs: Seq<StunAttribute>, a: StunAttribute) -> bool {
+    exists|k: int| 0 <= k < attrs.len() && admitted(types_of(attrs), k) && #[trigger] attrs[k] == a
+}
+pub open spec fn ec_inv(e: Option<&ErrorCode>, attrs: Seq<StunAttribute>) -> bool {
+    e is Some ==> from_msg(attrs, StunAttribute::ErrorCode(*e->Some_0))
+}
+pub open spec fn realm_inv(r: Option<Realm>, attrs: Seq<StunAttribute>) -> bool {
+    r is Some ==> from_msg(attrs, StunAttribute::Realm(r->Some_0))
+}
+pub open spec fn nonce_flag(x: Nonce, f: StunSecurityFeatures) -> bool {
+    x.cookie() && x.features() is Some && x.features()->Some_0.has(f)
+}
+pub open spec fn nonce_inv(nonce: Option<Nonce>, anon: bool, pas: bool, attrs: Seq<StunAttribute>) -> bool {
+    match nonce {
+        Some(x) => from_msg(attrs, StunAttribute::Nonce(x)) && anon == nonce_flag(x, StunSecurityFeatures::UserNameAnonymity)
+            && pas == nonce_flag(x, StunSecurityFeatures::PasswordAlgorithms),
+        None => !anon && !pas,
+    }
+}
+// the chosen algorithm is one of the offered ones and is MD5 or SHA-256
+pub open spec fn pa_inv(pa: Option<PasswordAlgorithm>, offered: PasswordAlgorithms) -> bool {
+    pa is Some ==> (exists|j: int| 0 <= j < offered.algs().len() && #[trigger] offered.algs()[j] == pa->Some_0)
+        && (pa->Some_0.alg_id() is MD5 || pa->Some_0.alg_id() is SHA256)
+}
+pub open spec fn pas_inv(pas: Option<PasswordAlgorithms>, pa: Option<PasswordAlgorithm>, attrs: Seq<StunAttribute>) -> bool {
+    match pas {
+        Some(x) => from_msg(attrs, StunAttribute::PasswordAlgorithms(x)) && pa is Some && pa_inv(pa, x),
+        None => pa is None,
+    }
+}
+// "msg carries an admitted integrity attribute of the agreed algorithm that verifies under the long-term key"
+pub open spec fn lt_verified(p: LongTermCredentialAttributes, msg: &StunMessage, raw: Seq<u8>) -> bool {
+    let t = match p.integrity { Integrity::MessageIntegrity => TY_MESSAGEINTEGRITY, Integrity::MessageIntegritySha256 => TY_MESSAGEINTEGRITYSHA256 };
+    let i = sel(msg.attrs(), msg.attrs().len() as int, t);
+    i is Some && mac_ok(msg.attrs()[i->Some_0], p.key, raw)
+}
 // the credential attributes every request after the 401 challenge carries (RFC 8489 9.2.4), in the order added
 pub open spec fn lt_cred_seq(c: LongTermCredentialClient, with_algorithms: bool) -> Seq<StunAttribute> {
     let p = c.params->Some_0;
@@ -914,6 +951,80 @@ impl LongTermCredentialClient {
                 &&& (r is Err ==> r->Err_0 == old(self).validator.discard_outcome(msg).0
                         && final(self).violated() == old(self).validator.discard_outcome(msg).1)
             }
+        },
+//@end
+//@item stun_agent :: mod lt_cred_mech > impl LongTermCredentialClient > fn process_error_response
+//@tags C08 C17 C03
+//@rules R4
+//@sub "msg.attributes().protected_iter()" => "VxSliceRef(msg.attributes()).protected_iter()"
+//@closure 1
+|| -> (x: IntegrityError)
+    ensures x is Discarded,
+//@head
+    let ghost attrs = msg.attrs();
+    let ghost n = attrs.len() as int;
+//@loop 1
+    invariant
+        vx_it0.wf(), vx_it0.iter.s@ == attrs, n == attrs.len(), attrs == msg.attrs(),
+        *self == *old(self), old(self).wf(),
+        opt_ref_is(integrity, attrs, sel(attrs, vx_it0.iter.pos as int, TY_MESSAGEINTEGRITY)),
+        opt_ref_is(integrity_sha256, attrs, sel(attrs, vx_it0.iter.pos as int, TY_MESSAGEINTEGRITYSHA256)),
+        ec_inv(error_code, attrs), realm_inv(realm, attrs),
+        nonce_inv(nonce, set_user_anonymity, set_password_algorithms, attrs),
+        pas_inv(password_algorithms, password_algorithm, attrs),
+    ensures
+        vx_it0.iter.pos == n,
+    decreases n - vx_it0.iter.pos,
+//@loop 2
+    invariant
+        vx_it1.pos <= vx_it1.s@.len(), vx_it1.s@ == attr.algs(),
+        pa_inv(password_algorithm, *attr),
+    decreases vx_it1.s@.len() - vx_it1.pos,
+//@loopstart 1
+    let ghost p0 = vx_it0.iter.pos as int;
+//@at "Some(attribute) => {"
+    proof {
+        let k = vx_it0.iter.pos - 1;
+        lemma_sel_skip(attrs, p0, k, TY_MESSAGEINTEGRITY);
+        lemma_sel_skip(attrs, p0, k, TY_MESSAGEINTEGRITYSHA256);
+        assert(types_of(attrs)[k] == attrs[k].ty());
+        lemma_variant_ty(attrs[k]);
+        assert(*attribute == attrs[k]);
+        assert(admitted(types_of(attrs), k));
+        assert(from_msg(attrs, attrs[k]));
+    }
+//@before "break; }" #2
+    proof {
+        lemma_sel_skip(attrs, p0, n, TY_MESSAGEINTEGRITY);
+        lemma_sel_skip(attrs, p0, n, TY_MESSAGEINTEGRITYSHA256);
+    }
+//@spec
+    requires old(self).wf(),
+    ensures final(self).same_ident(old(self)), final(self).wf(),
+        // C17: anything that is not a retry instruction leaves the credentials and the state alone
+        (r is Ok || !(r->Err_0 is Retry)) ==> final(self).params == old(self).params && final(self).state == old(self).state,
+        (r is Err && r->Err_0 is Discarded) ==> (final(self).violated() == old(self).violated()
+            || final(self).violated() == old(self).validator.discard_outcome(msg).1),
+        // ordinary error responses are delivered only if they verify under the long-term key
+        r is Ok ==> old(self).params is Some && lt_verified(old(self).params->Some_0, msg, raw_buffer@),
+        // 401 challenge / 438 stale nonce
+        (r is Err && r->Err_0 is Retry) ==> final(self).params is Some && final(self).state is Retry && {
+            let p = final(self).params->Some_0;
+            &&& from_msg(msg.attrs(), StunAttribute::Nonce(p.nonce))
+            &&& (final(self).state == LongTermCredentialState::Retry(RetryCause::Unauthenticated) ==> {
+                    &&& from_msg(msg.attrs(), StunAttribute::Realm(p.realm))
+                    // key = H(user:realm:password) under the chosen algorithm (MD5 if none was offered)
+                    &&& lt_key(old(self).user_name, p.realm, old(self).password@, lt_alg(p.password_algorithm)) == Some(p.key)
+                    &&& p.integrity == (if p.password_algorithms is Some { Integrity::MessageIntegritySha256 } else { Integrity::MessageIntegrity })
+                    &&& pas_inv(p.password_algorithms, p.password_algorithm, msg.attrs())
+                    // USERHASH instead of USERNAME exactly when the nonce cookie asks for anonymity
+                    &&& (p.user_hash is Some <==> nonce_flag(p.nonce, StunSecurityFeatures::UserNameAnonymity))
+                    &&& (p.user_hash is Some ==> user_hash_of(old(self).user_name, p.realm) == p.user_hash)
+                    // a nonce cookie announcing password algorithms must come with the list
+                    &&& (nonce_flag(p.nonce, StunSecurityFeatures::PasswordAlgorithms) ==> p.password_algorithms is Some)
+                })
+            &&& (final(self).state == LongTermCredentialState::Retry(RetryCause::StaleNonce) ==>
+                    old(self).params is Some && p == (LongTermCredentialAttributes { nonce: p.nonce, ..old(self).params->Some_0 }))
         },
 //@end
 }
